@@ -157,10 +157,29 @@ def spec_invariant_violations(prog, impl_out):
     return bad
 
 
-def has_scalar_insert(prog):
+def has_scalar_insert(prog, osy=None):
+    """The known scalar gate: some insertion went into a group whose first member was 0-d at that moment
+    (a 0-d Array inserted directly, or the 0-d members left by integer-indexing a group), so `if self.shape and ...`
+    skipped the shape test. Decided by replaying the history on the real class and looking at the group before each insertion."""
     zero_d = {o["dst"] for o in prog if o["op"] == "arr" and o["v"]["shape"] == []}
-    return any(o["op"] == "dg_set" and o["v"] in zero_d for o in prog) or any(
-        o["op"] == "dg_update" and any(v in zero_d for _, v in o["items"]) for o in prog)
+    if any(o["op"] == "dg_set" and o["v"] in zero_d for o in prog) or any(
+            o["op"] == "dg_update" and any(v in zero_d for _, v in o["items"]) for o in prog):
+        return True
+    if osy is None:
+        return False
+    m = coremachine.PyMachine(osy)
+    for op in prog:
+        if op["op"] in ("dg_set", "dg_update"):
+            try:
+                grp = m.env[op["g"]]
+                if len(grp) > 0 and grp.shape == ():
+                    vals = [op["v"]] if op["op"] == "dg_set" else [v for _, v in op["items"]]
+                    if any(getattr(m.env.get(v), "shape", ()) != () for v in vals):
+                        return True
+            except Exception:  # noqa: BLE001
+                pass
+        m.run([op])
+    return False
 
 
 def nontrivial(case, impl_out):
@@ -189,7 +208,7 @@ def run(ctx):
         m = coremachine.PyMachine(osy)
         res = m.run(prog)
         for op, shapes in spec_invariant_violations(prog, res):
-            cls = WITNESS_SCALAR_GATE if has_scalar_insert(prog) else "non_scalar_history"
+            cls = WITNESS_SCALAR_GATE if has_scalar_insert(prog, osy) else "non_scalar_history"
             out.violations.append({
                 "what": f"non-scalar group with members of different shapes {shapes}",
                 "case": {"engine": "core", "prog": prog, "lane": "exact"},
